@@ -1386,6 +1386,11 @@ def step(m: Model, d: Data):
 @event_scope
 def step1(m: Model, d: Data):
   """Advance simulation in two phases: before input is set by user."""
+  sleep_enabled = bool(m.opt.enableflags & EnableBit.SLEEP) and not bool(m.opt.disableflags & DisableBit.ISLAND)
+  if sleep_enabled:
+    sleep.wake(m, d)
+    sleep.update_sleep(m, d)
+
   fwd_position(m, d)
   d.sensordata.zero_()
   sensor.sensor_pos(m, d)
